@@ -5,7 +5,7 @@ use drivers::*;
 use serde::{Deserialize, Serialize};
 use simple_sds::bit_vector::select_support::SelectSupport;
 use simple_sds::bit_vector::{BitVector, Complement, Identity};
-use simple_sds::ops::BitVec;
+use simple_sds::ops::{BitVec, PredSucc, Rank, Select, SelectZero};
 use simple_sds::rl_vector::RLVector;
 use simple_sds::sparse_vector::SparseVector;
 use std::iter::FromIterator;
@@ -145,6 +145,22 @@ fn check_case(ctx: &mut Ctx, c: &Case) {
         })));
     }
     if len <= 4200 {
+        // Support structures enabled in other orders (the answers may not depend on the order).
+        routes.push(("enable_rank, enable_pred_succ, enable_select_zero", guard(|| {
+            let mut v = BitVector::from(raw_from_model(&m));
+            v.enable_rank();
+            v.enable_pred_succ();
+            v.enable_select_zero();
+            v
+        })));
+        routes.push(("enable_select_zero, enable_pred_succ, enable_select, enable_rank", guard(|| {
+            let mut v = BitVector::from(raw_from_model(&m));
+            v.enable_select_zero();
+            v.enable_pred_succ();
+            v.enable_select();
+            v.enable_rank();
+            v
+        })));
         // A raw vector that went through pushes and pops before the conversion (stale bits beyond
         // the length would corrupt the cached number of set bits).
         routes.push(("RawVector push_bit/pop_bit history", guard(|| {
